@@ -335,6 +335,14 @@ Theorem exec_checkpoint_skeleton_agrees :
 Proof. reflexivity. Qed.
 Print Assumptions exec_checkpoint_skeleton_agrees.
 
+(** the decision procedure itself, regenerated from db.go on every run: the order of its tests, the
+    calls that decide continuity, every assignment to the result and to the sync state, the guards on
+    syncedToWALEnd / reachedWALEnd / the cursor position (reading guide in Db/Skeleton.v) *)
+Theorem verify_skeleton_agrees :
+  Gen.Skeleton.skel_verifyWithExecutor = Db.Skeleton.expected_verifyWithExecutor.
+Proof. reflexivity. Qed.
+Print Assumptions verify_skeleton_agrees.
+
 (** * Refinement of the byte-level decision to the machine's (Db/VerifyRefine.v)
 
     [Db.Verify.verify] — the byte-level model of verifyWithExecutor that is compared with db.go
